@@ -1,5 +1,96 @@
 import Driver.Common
-/-! Driver for C10 (stub: not built yet). -/
-def main (_args : List String) : IO UInt32 := do
-  IO.eprintln "C10: driver not implemented"
-  return 2
+import CoapVerif.Model.Server
+/-!
+Driver for C10.  `model`: `keyeq …` from `normLocal`; other lines `n/a`.
+`judge`: `<input> | <observed>`: spec key equality for `keyeq`; for `serve`: every well-behaved client received all its
+responses and nothing foreign, the server answered a fresh peer afterwards, Serve was still running, nothing panicked;
+for `discover`: every responder's answer reached the receiver with that responder's connection, strays went to the
+default handler.
+-/
+namespace Driver.C10
+open CoapVerif CoapVerif.Spec.Server CoapVerif.Model.Server
+
+def parseLocal (kind ip : String) : Option Local :=
+  match kind, ip.toNat? with
+  | "concrete", some n => some (.concrete n)
+  | "concrete6", some n => some (.concrete (1000 + n))
+  | "multicast", some n => some (.multicast n)
+  | "multicast6", some n => some (.multicast (1000 + n))
+  | "unspecified", _ => some .unspecified
+  | "unspecified6", _ => some .unspecified
+  | "empty", _ => some .unspecified
+  | _, _ => none
+
+def keyeqModel (ws : List String) : Option Bool :=
+  match ws with
+  | ["keyeq", ra, ka, ia, rb, kb, ib] => do
+    let ra ← ra.toNat?; let rb ← rb.toNat?
+    let la ← parseLocal ka ia; let lb ← parseLocal kb ib
+    some ((ra, normLocal la) == (rb, normLocal lb))
+  | _ => none
+
+def keyeqSpec (ws : List String) : Option Bool :=
+  match ws with
+  | ["keyeq", ra, ka, ia, rb, kb, ib] => do
+    let ra ← ra.toNat?; let rb ← rb.toNat?
+    let la ← parseLocal ka ia; let lb ← parseLocal kb ib
+    some (specKey ⟨ra, la, true, 0, 0⟩ == specKey ⟨rb, lb, true, 0, 0⟩)
+  | _ => none
+
+def judgeServe (obs : String) : String :=
+  let parts := obs.splitOn " ; "
+  let bad := parts.filterMap (fun p =>
+    match words p with
+    | [g, "got", frac, "wrong", w] =>
+      match frac.splitOn "/" with
+      | [a, b] => if a == b && w == "0" then none else some s!"client {g} received {frac} of its responses and {w} foreign/garbled ones"
+      | _ => some "unparsable"
+    | ["alive", a, "serving", sv, "panics", p] =>
+      if p != "0" then some "the server panicked"
+      else if sv != "1" then some "Serve returned while peers were active"
+      else if a != "1" then some "the server no longer answers a fresh peer"
+      else none
+    | _ => some s!"unparsable `{p}`")
+  match bad with
+  | [] => "ok"
+  | e :: _ => s!"violates {e}"
+
+def handle (mode : String) (line : String) : String :=
+  match line.splitOn " | " with
+  | [inp] =>
+    if mode == "model" then
+      match keyeqModel (words inp) with
+      | some b => if b then "1" else "0"
+      | none => "n/a"
+    else "bad-op"
+  | [inp, obs] =>
+    let ws := words inp
+    if obs.startsWith "rig-error" then "ok rig"
+    else match ws with
+    | "keyeq" :: _ =>
+      match keyeqSpec ws with
+      | some b => if (if b then "1" else "0") == obs then "ok" else s!"violates key equality: expected {if b then 1 else 0}"
+      | none => "bad-op"
+    | "serve" :: _ => judgeServe obs
+    | ["discover", n] =>
+      match words obs with
+      | ["receiver", "ok", frac, "bad", b, "default", d] =>
+        if frac == s!"{n}/{n}" && b == "0" && d == n then "ok"
+        else s!"violates discovery routing: receiver got {frac}, {b} misrouted, {d} strays at the default handler (expected {n}/{n}, 0, {n})"
+      | _ => "violates unparsable-observation"
+    | _ => "bad-op"
+  | _ => "bad-op"
+
+end Driver.C10
+
+def main (args : List String) : IO UInt32 := do
+  let stdin ← IO.getStdin
+  let stdout ← IO.getStdout
+  match args with
+  | [mode] =>
+    if mode == "judge" || mode == "model" then
+      Driver.forLines stdin fun l => stdout.putStrLn (Driver.C10.handle mode l)
+      stdout.flush
+      return 0
+    else IO.eprintln "usage: drv_c10 model|judge"; return 2
+  | _ => IO.eprintln "usage: drv_c10 model|judge"; return 2
